@@ -209,10 +209,11 @@ type State struct {
 	FormalOrder []string
 	// snapshots of the state at the last acquisition / release of the monitor lock on this path
 	LockSnap, UnlockSnap *State
+	Unframed             bool // a havoc-all that is not interference happened on this path (frames unprovable)
 }
 
 func (s *State) clone() *State {
-	n := &State{Comps: make(map[string]string, len(s.Comps)), Gen: s.Gen, LockSnap: s.LockSnap, UnlockSnap: s.UnlockSnap}
+	n := &State{Comps: make(map[string]string, len(s.Comps)), Gen: s.Gen, LockSnap: s.LockSnap, UnlockSnap: s.UnlockSnap, Unframed: s.Unframed}
 	for k, v := range s.Comps {
 		n.Comps[k] = v
 	}
